@@ -32,6 +32,7 @@ class ServerRun:
         import mpgameserver.twisted as TW
         from mpgameserver.handler import EventHandler
         self.real, self.S, self.X, self.TW = real, S, X, TW
+        real.bind_clock()
         C = real.C
         self.C = C
         run = self
